@@ -328,6 +328,23 @@ class SymI(SymR):
             return SymI(s.e % z3.IntVal(int(o)))
         raise TypeError("symbolic % unsupported divisor")
 
+    def __rshift__(s, k):
+        if isinstance(k, (int, _np.integer)) and int(k) >= 0:
+            return SymI(s.e / z3.IntVal(1 << int(k)))       # floor division, as Python's >>
+        raise TypeError("symbolic >> unsupported shift")
+
+    def __lshift__(s, k):
+        if isinstance(k, (int, _np.integer)) and int(k) >= 0:
+            return SymI(s.e * z3.IntVal(1 << int(k)))
+        raise TypeError("symbolic << unsupported shift")
+
+    def __and__(s, m):
+        if isinstance(m, (int, _np.integer)) and int(m) >= 0 and (int(m) + 1) & int(m) == 0:
+            return SymI(s.e % z3.IntVal(int(m) + 1))        # low-bit mask (two's complement semantics)
+        raise TypeError("symbolic & unsupported mask")
+
+    __rand__ = __and__
+
     def __neg__(s):
         return SymI(-s.e)
 
